@@ -121,9 +121,9 @@ Proof. intros ((SC & _) & _). apply led_sc; auto. Qed.
 
 (** ---- KInv under changes of the fid table / the holders ---- *)
 Lemma K_with_held h s pend : KInv s pend -> KInv (with_held B h s) pend.
-Proof. intros K. apply (K_ext B s _ pend K); try reflexivity. intros q _. repeat split; auto. Qed.
+Proof. intros K. apply (K_ext B s _ pend K); try reflexivity. intros q Hq. repeat split; auto. intros p Hp. exact (K8 B s pend K q p Hq Hp). Qed.
 Lemma K_with_fids f s pend : KInv s pend -> KInv (with_fids B f s) pend.
-Proof. intros K. apply (K_ext B s _ pend K); try reflexivity. intros q _. repeat split; auto. Qed.
+Proof. intros K. apply (K_ext B s _ pend K); try reflexivity. intros q Hq. repeat split; auto. intros p Hp. exact (K8 B s pend K q p Hq Hp). Qed.
 
 Lemma live_of_C s d r : RefInvD B s d -> 0 < C s r -> live (gref s r) = true.
 Proof. intros Inv H. destruct (inv_live B s d r Inv H) as (_ & Lv). unfold live. apply Z.ltb_lt. exact Lv. Qed.
@@ -224,7 +224,7 @@ Proof.
   assert (EL : s_log B (snd (new_ref_inc B x s)) = s_log B s).
   { unfold new_ref_inc, new_ref. cbn. destruct (fr_parent x); [reflexivity|]. destruct (fr_xattrOf x); reflexivity. }
   split; [exact E1|]. split; [split; [exact I1|split; [|rewrite EL; exact W]]|split; [exact L1|]].
-  - pose proof (K_new_owner B s h x K EF EX) as K1. unfold new_ref_inc.
+  - pose proof (K_new_owner B s h x K EF EX ltac:(intros p Hp; apply (inv_live B s d p I (HP p Hp)))) as K1. unfold new_ref_inc.
     destruct (new_ref B x s) as [nr s1] eqn:ENR. cbn [snd] in *.
     destruct (fr_parent x) as [p|] eqn:EP; [|rewrite EX; exact K1].
     apply K_incref; auto.
@@ -246,7 +246,7 @@ Proof.
   assert (EL : s_log B (snd (new_ref_inc B x s)) = s_log B s).
   { unfold new_ref_inc, new_ref. cbn. destruct (fr_parent x); [reflexivity|]. destruct (fr_xattrOf x); reflexivity. }
   split; [exact E1|]. split; [split; [exact I1|split; [|rewrite EL; exact W]]|split; [exact L1|]].
-  - pose proof (K_new_borrower B s pend x o K EX Lo EF) as K1. unfold new_ref_inc.
+  - pose proof (K_new_borrower B s pend x o K EX Lo EF EP) as K1. unfold new_ref_inc.
     destruct (new_ref B x s) as [nr s1] eqn:ENR. cbn [snd] in *. rewrite EP, EX.
     apply K_incref; auto.
     replace s1 with (snd (new_ref B x s)) by (rewrite ENR; reflexivity).
@@ -262,7 +262,8 @@ Proof.
   intros (I & K & W) H EP EX EF. cbv zeta.
   destruct (new_ref_handover_ok B s d wr x I H EP EX) as (E1 & I1 & L1).
   split; [exact E1|]. split; [split; [exact I1|split; [|exact W]]|split; [exact L1|]].
-  - unfold new_ref_handover. apply (K_new_owner B _ h x); auto. apply K_with_held. exact K.
+  - unfold new_ref_handover. apply (K_new_owner B _ h x); auto; [apply K_with_held; exact K|].
+    intros p Hp. rewrite EP in Hp. injection Hp as <-. apply (inv_live B s d wr I). pose proof (C_hc s wr). lia.
   - unfold RefStep.hc, new_ref_handover, new_ref; cbn. rewrite cnt_cons, ind_same. lia.
 Qed.
 
@@ -302,7 +303,10 @@ Lemma set_fields_ok s d pend r x' :
   FInvP (set_ref B r x' s) d pend /\ led [] [] s (set_ref B r x' s).
 Proof.
   intros (I & K & W) E1 E2 E3 E4. destruct (set_fields_ok B s d r x' I E1 E2 E3) as (I1 & L1).
-  split; [split; [exact I1|split; [|exact W]] | exact L1]. apply K_set_ref; auto. intros _. unfold live. rewrite E1. reflexivity.
+  split; [split; [exact I1|split; [|exact W]] | exact L1].
+  destruct (Nat.lt_ge_cases r (len B s)) as [Hr|Hr].
+  - apply K_set_ref; auto; [intros _; unfold live; rewrite E1; reflexivity|]. intros p Hp. rewrite E2 in Hp. apply (K8 B s pend K r p Hr Hp).
+  - unfold set_ref. rewrite upd_oob by exact Hr. destruct s; exact K.
 Qed.
 
 Arguments sl_ok s s' d {pend}.
@@ -771,8 +775,9 @@ Proof.
   destruct (fr_parent (gref s r)) as [p|] eqn:EP; [|apply sl_ok; auto; apply sl_set_panic].
   destruct Inv as (I & K & W).
   pose proof (reparent_inv B s d r p tgt I Hr EP Ht) as I1.
+  destruct (inv_live B s d tgt I Ht) as (Ltg & _).
   set (sA := set_ref B r (fr_with_parent (gref s r) (Some tgt)) s) in *.
-  assert (KA : KInv sA None) by (apply K_set_ref; auto).
+  assert (KA : KInv sA None) by (apply K_set_ref; auto; intros q [= <-]; exact Ltg).
   set (s1 := incref B tgt sA) in *.
   assert (K1 : KInv s1 None).
   { apply K_incref; auto. pose proof (live_of_C s d tgt I Ht) as Lt. unfold sA.
@@ -780,17 +785,16 @@ Proof.
     - destruct (inv_live B s d r I Hr) as (Lr & _). rewrite gref_set_same by auto. exact Lt.
     - rewrite gref_set_other by auto. exact Lt. }
   assert (L1 : led [] [] s s1). { split; [intro; auto|]. unfold RefStep.hc; cbn. split; intros; lia. }
-  destruct (decref_ok B bstep p s1 d I1) as (I2 & _ & Kp2).
-  pose proof (decref_K_ B bstep p s1 d None I1 K1) as K2.
-  pose proof (decref_U_ B bstep p s1 d None I1 K1 W) as W2.
-  set (s2 := snd (decref_ B bstep p s1)) in *.
-  assert (F2 : FInv s2 d) by (split; [exact I2 | split; [exact K2 | exact W2]]).
-  pose proof (sl_add_child (fr_node (gref s2 tgt)) r newnm s2) as SC3.
-  set (s3 := add_child B (fr_node (gref s2 tgt)) r newnm s2) in *.
-  destruct (sl_ok s2 s3 d SC3 F2) as (I3 & L3).
-  pose proof (sl_bc (BRenamed (fr_file (gref s3 r)) (fr_file (gref s3 tgt)) newnm) s3 ltac:(intros h [])) as SC4.
-  destruct (sl_ok s3 _ d SC4 I3) as (I4 & L4). split; auto.
-  eapply led_equiv; [|exact (led_trans _ _ _ _ _ _ _ (led_trans _ _ _ _ _ _ _ (led_trans _ _ _ _ _ _ _ L1 (led_keeps _ _ Kp2)) L3) L4)]. led_arith.
+  assert (F1 : FInvP s1 (p :: d) None) by (split; [exact I1 | split; [exact K1 | exact W]]).
+  pose proof (sl_add_child (fr_node (gref s1 tgt)) r newnm s1) as SC2.
+  set (s2 := add_child B (fr_node (gref s1 tgt)) r newnm s1) in *.
+  destruct (sl_ok s1 s2 (p :: d) SC2 F1) as (F2 & L2).
+  pose proof (sl_bc (BRenamed (fr_file (gref s2 r)) (fr_file (gref s2 tgt)) newnm) s2 ltac:(intros h [])) as SC3.
+  set (s3 := snd (bcall_ B bstep (BRenamed (fr_file (gref s2 r)) (fr_file (gref s2 tgt)) newnm) s2)) in *.
+  destruct (sl_ok s2 s3 (p :: d) SC3 F2) as ((I3 & K3 & W3) & L3).
+  destruct (decref_ok B bstep p s3 d I3) as (I4 & _ & Kp4).
+  split; [split; [exact I4 | split; [exact (decref_K_ B bstep p s3 d None I3 K3) | exact (decref_U_ B bstep p s3 d None I3 K3 W3)]]|].
+  eapply led_equiv; [|exact (led_trans _ _ _ _ _ _ _ (led_trans _ _ _ _ _ _ _ (led_trans _ _ _ _ _ _ _ L1 L2) L3) (led_keeps _ _ Kp4))]. led_arith.
 Qed.
 
 Lemma rwn_loop_ok n nm tgt newnm m : forall held s d,
